@@ -27,7 +27,7 @@ def main():
     if which in ("all", "benign"):
         jobs += sorted(glob.glob("/verif/benign/*.diff"))
     res = {}
-    with ProcessPoolExecutor(max_workers=8) as ex:
+    with ProcessPoolExecutor(max_workers=int(os.environ.get("VERIF_JOBS", "8"))) as ex:
         for path, status, out in ex.map(one, jobs):
             res[path] = {"status": status, "fires": out}
             print(path, status, {p: len(v) for p, v in out.items()}, flush=True)
